@@ -88,6 +88,34 @@ _WRAPPED_META: List[Tuple[str, str]] = [
     ("multiline5-meta-mix", "l1 =| x\nl2 =$ 1+1 \\\nl3 [[AGENT_ID]] \\\n<1,2,3>\n" + UUID_STR + "\n( a-b-c\n) end"),
 ]
 
+# characters a "helpful" parser might normalise: typographic quotes (all of U+2018..U+201F; repr() keeps them raw and picks the
+# delimiter from the ASCII quotes only), and look-alikes of whitespace / operators / comment markers / line breaks
+_TYPO_ALL = "\u2018a\u2019 \u201ab\u201b \u201cc\u201d \u201ed\u201f"
+_NORMALISABLE = "a\u00a0b\u200bc\u2013d\u2014e\u2026f\uff1dg\uff03h\ufeffi\u0085j\u2028k\u2029l"
+_NORMALISE_ME: List[Tuple[str, str]] = [
+    ("typographic-apostrophe", "it\u2019s"),
+    ("typographic-double-quotes", "\u201chi\u201d"),
+    ("typographic-quote-block", _TYPO_ALL),
+    ("typographic-mixed-with-ascii-quotes", "\u2018it's\u2019 \"q\" \u201cx\u201d \u201ey\u201f"),
+    ("typographic-at-edges", "\u2019starts and ends\u201d"),
+    ("typographic-multiline5", "\u2018l1\u2019\nit\u2019s l2\n\u201cl3\u201d\n'l4'\n\"l5\"\n\u201el6\u201f"),
+    ("typographic-long-wrap", "lorem ipsum \u2018dolor\u2019 " * 3 + "it\u2019s \u201cquoted\u201d and 'ascii' \"too\" " + "sit amet " * 6 + "end\u201d"),
+    ("normalisable-characters", _NORMALISABLE),
+    ("normalisable-at-edges-and-operators", "\ufeff\u200bx \uff1d 1 \uff03 c \uff1d\uff04 2\u2026\u00a0\u200b"),
+]
+# the same characters inside pretty-printed subfields (payloads the subfield codecs reproduce; shown as `=|` dicts / lists)
+_SUB_TEXTS = [("typographic", ("it\u2019s \u201cx\u201d \u2018y\u2019 \u201ez\u201f \u201aw\u201b").encode("utf8")),
+              ("typographic-edges", "\u2019x\u201d".encode("utf8")),
+              ("normalisable", _NORMALISABLE.encode("utf8"))]
+_U16 = bytes(range(16))
+EXTRA_PAYLOADS = {
+    ("ObjectUpdate", "ObjectData", "NameValue"): [(None, l, b"Title STRING RW SV " + t + b"\x00") for l, t in _SUB_TEXTS],
+    ("ImprovedInstantMessage", "MessageBlock", "BinaryBucket"):
+        [(32, l, b"\x01\x09" + _U16 + t + b"\x00") for l, t in _SUB_TEXTS] + [(37, l, b"\x00\x00" + _U16 + t + b"\x00") for l, t in _SUB_TEXTS],
+    ("TransferRequest", "TransferInfo", "Params"): [(1, l, t + b"\x00\x01") for l, t in _SUB_TEXTS],
+    ("TransferInfo", "TransferInfo", "Params"): [(1, l, t + b"\x00\x01") for l, t in _SUB_TEXTS],
+}
+
 TORTURE_STR: List[Tuple[str, str]] = [
     ("multiline5", "l1\nl2\nl3\nl4\nl5\nl6"),
     ("multiline5-trailing-newline", "a\n\n\n\n\n"),
@@ -133,7 +161,7 @@ TORTURE_STR: List[Tuple[str, str]] = [
     ("astral", "smile \U0001f600 ✓"),
     ("leading-NUL", "\x00x"),
     ("long-unicode-wrap", "héllo wörld ✓ " * 12),
-] + [(l, v) for l, v in _WRAPPED_META]
+] + [(l, v) for l, v in _WRAPPED_META] + _NORMALISE_ME
 
 TORTURE_BYTES: List[Tuple[str, bytes]] = [
     ("trailing-NULs", b"abc\x00\x00"),
@@ -160,7 +188,10 @@ TORTURE_BYTES: List[Tuple[str, bytes]] = [
     ("bytes-long-multiline", (b"line of bytes number one " * 5 + b"\n") * 6),
     ("bytes-crlf", b"a\r\nb\r\nc\r\nd\r\ne\r\nf"),
     ("bytes-inner-NUL", b"a\x00b"),
-] + [("bytes-" + l, v.encode("ascii")) for l, v in _WRAPPED_META]
+] + [("bytes-" + l, v.encode("ascii")) for l, v in _WRAPPED_META] + [
+    ("bytes-typographic-utf8", _TYPO_ALL.encode("utf8")), ("bytes-typographic-utf8-NUL-NUL", "it\u2019s".encode("utf8") + b"\x00\x00"),
+    ("bytes-normalisable-utf8", _NORMALISABLE.encode("utf8")),
+]
 
 FIXED_PATTERNS: List[Tuple[str, bytes]] = [
     ("fixed-newlines", b"\n"), ("fixed-lines", b"a\n"), ("fixed-backslashes", b"\\"), ("fixed-quotes", b"'\""),
@@ -849,6 +880,7 @@ def subfield_payloads(key):
         cands = [(f"{fill}{n}", FILLS[fill](n)) for fill in ("z", "f", "p", "o", "h") for n in range(0, maxlen + 1)]
         if key[2] == "TextureEntry":
             cands.append(("example-te", EXAMPLE_TE))
+        cands += [(f"text:{l}", pl) for c, l, pl in EXTRA_PAYLOADS.get(key, ()) if c == cv]
         seen = set()
         for shape, p in cands:
             if p in seen:
